@@ -20,7 +20,7 @@ RULE = ("every strict, reserved and weak keyword of the Rust reference (editions
 STYLES = ["fooBar", "foo_bar", "FooBar", "FOO_BAR", "_foo", "_Foo", "foo2bar", "a1", "x_1", "foo_", "fooBar_baz", "X", "iOS", "HTTPServer",
           "x", "aB", "AB", "a_b_c", "A_b", "fooID", "id", "ID_", "Type", "r"]
 POSITIONS = ["field", "alias", "variable", "input-field", "oneof-member", "enum-value", "recursive-input-field"]
-FLOOR = {"cases": 1200, "pos:field": 150, "pos:alias": 150, "pos:variable": 150, "pos:input-field": 150, "pos:oneof-member": 150, "pos:enum-value": 140, "pos:recursive-input-field": 150, "keyword-cases": 600, "keyword-after-snake-cases": 1000}
+FLOOR = {"cases": 1200, "pos:field": 150, "pos:alias": 150, "pos:variable": 150, "pos:input-field": 150, "pos:oneof-member": 150, "pos:enum-value": 140, "pos:recursive-input-field": 150, "pos:case-twin-field": 30, "keyword-cases": 600, "keyword-after-snake-cases": 1000}
 
 
 def make(name, pos, rust, cid, rng):
@@ -87,6 +87,35 @@ def make(name, pos, rust, cid, rng):
     c["vectors"] = vecs
     c["name"], c["position"], c["rust"] = name, pos, rust
     return c
+
+
+def twin_cases(rng):
+    """two fields of one type whose names differ in ASCII case only (`type` / `Type`, `createdAt` / `CreatedAt`, `URL` / `url`):
+    GraphQL names are case-sensitive. The document selects the one declared LATER (and, in a second case, the earlier one): the
+    wire key must be exactly the selected name, the value must arrive"""
+    out = []
+    pairs = [("type", "Type"), ("Type", "type"), ("createdAt", "CreatedAt"), ("URL", "url"), ("self", "SELF"), ("id", "ID"), ("fooBar", "foobar"), ("async", "Async")]
+    for pi, (first, second) in enumerate(pairs):
+        for which, sel_name in (("later", second), ("earlier", first)):
+            for kind in ("object", "interface"):
+                s = Schema()
+                fields = [{"name": first, "type": T("String"), "args": [], "deprecated": None}, {"name": second, "type": T("Int"), "args": [], "deprecated": None}]
+                if kind == "interface":
+                    s.add("Holder", {"kind": "interface", "fields": [dict(f) for f in fields]})
+                    s.add("Impl", {"kind": "object", "implements": ["Holder"], "fields": [dict(f) for f in fields]})
+                else:
+                    s.add("Holder", {"kind": "object", "implements": [], "fields": fields})
+                s.add("Query", {"kind": "object", "implements": [], "fields": [{"name": "h", "type": T("Holder"), "args": [], "deprecated": None}] + [dict(f) for f in fields]})
+                val = 7 if sel_name == second else "seven"
+                sub = ([["typename"]] if kind == "interface" else []) + [["field", None, sel_name, None, None]]
+                doc = {"operations": [{"kind": "query", "name": "Q", "vars": [], "sel": [["field", None, "h", None, sub], ["field", None, sel_name, None, None]]}], "fragments": []}
+                payload = {"h": dict({"__typename": "Impl"} if kind == "interface" else {}, **{sel_name: val}), sel_name: val}
+                c = C.make_case("tw%d%s%s" % (pi, which[0], kind[0]), s, doc, rng, options={}, fmt="sdl" if pi % 2 == 0 else "json")
+                c["from_string"] = True
+                c["vectors"] = [{"id": "r0", "kind": "resp", "target": "Q", "input": payload, "expect": {"ok": True, "reser": payload}, "label": "wire-key"}]
+                c["name"], c["position"], c["rust"] = "%s (next to %s, %s declared)" % (sel_name, first if sel_name == second else second, which), "case-twin-field", False
+                out.append(c)
+    return out
 
 
 def derived(k):
@@ -194,6 +223,7 @@ def main(run):
             from ..model import render_json
             c["schema_text"], c["schema_ext"], c["schema_format"] = render_json(Schema(c["schema_model"])), "json", "json"
         cs.append(c)
+    cs += twin_cases(run.rng)
     for w in hazards.cases_for(run, "C11"):
         cs.append(w)
     execute(run, cs)
